@@ -4,6 +4,7 @@ import (
 	"bytes"
 	"fmt"
 	"math"
+	"strings"
 	"time"
 
 	"github.com/simpleiot/simpleiot/client"
@@ -26,7 +27,23 @@ func runC17(s *Sim) {
 	seq := byte(wl.Draw(256))
 	var subject string
 	ids := []string{"ID-1", "inst1", "a1b2c3d4", "9f3e", "node", "abc"}
-	switch wl.Draw(6) {
+	documented := true
+	switch wl.Draw(8) {
+	case 6: // any other subject of up to 16 bytes is an ordinary packet with a checksum, also one that begins like "log"
+		subject = []string{"logger", "log.abc", "logs", "login/node/1", "lo", "ack2", "phr/x", "p", "0123456789abcdef"}[wl.Draw(9)]
+		documented = false
+	case 7:
+		documented = false
+		subject = genStr(wl) + genStr(wl)
+		if len(subject) > 16 {
+			subject = subject[:16]
+		}
+		for subject == "log" || strings.ContainsRune(subject, 0) {
+			subject = "x" + strings.ReplaceAll(subject, "\x00", "")
+			if len(subject) > 16 {
+				subject = subject[:16]
+			}
+		}
 	case 0:
 		subject = ""
 	case 1:
@@ -118,6 +135,13 @@ func runC17(s *Sim) {
 		}
 	}
 
+	if !documented {
+		// the corruption clause is stated for the documented subjects: a few bit errors turn "logs" into "log", which
+		// carries no checksum by design; other subjects are judged on the round trip only
+		s.Probe("other subjects: round trip only")
+		s.Stats.NonTrivial = true
+		return
+	}
 	// --- damaged in transit: rejected, or delivered with identical content ---
 	nbits := len(enc) * 8
 	check := func(d []byte, what string) bool {
